@@ -1,6 +1,7 @@
 //! Correspondence harness for fixed-buffer (blocking crate).  Runs the real code and
 //! prints one line per explored case for the Lean driver (`fbvdriver`).
 mod df;
+mod es;
 mod replay;
 mod t1;
 mod util;
@@ -78,6 +79,7 @@ fn main() {
             eprintln!("STAT t1_total states={} transitions={} capped={} walk_transitions={}", tot.0, tot.1, tot.2, wt);
         }
         "df" => df::run(thorough, seed, &mut w),
+        "es" => es::run(thorough, seed, &mut w),
         "replay" => replay::run(&mut w),
         _ => {
             eprintln!("usage: fbharness t1 [--tier quick|thorough] [--seed N]");
